@@ -914,7 +914,7 @@ def toyCols : List Col := [⟨"a", .int32, .required, 0⟩]
 
 /-- one batch of two INT32 values, `new_row_group`, one more batch -/
 def toyOps : List Op :=
-  [.batch ⟨0, 2, none, [[1, 0, 0, 0], [2, 0, 0, 0]]⟩, .newRowGroup, .batch ⟨0, 1, none, [[3, 0, 0, 0]]⟩]
+  [.batch ⟨0, 2, none, [[1, 0, 0, 0], [2, 0, 0, 0]], none⟩, .newRowGroup, .batch ⟨0, 1, none, [[3, 0, 0, 0]], none⟩]
 
 /-- stdio pushes everything at once; the sink never fails -/
 def quietOracle : Impl.Sink.Oracle := fun _ => .push 1000
